@@ -72,6 +72,7 @@ COMP_RULES = [
     (r"weightImportance_\[i\]", "weightImportance(i)", 0),
     (r"components_\[i\]->interpolate\(cfrom->components\[i\], cto->components\[i\], t, cstate->components\[i\]\)", "comp_interpolate(i, t)", 0),
     (r"weights_\[i\] \* components_\[i\]->distance\(cstate1->components\[i\], cstate2->components\[i\]\)", "comp_weighted_distance(i)", 0),
+    (r"components_\[i\]->equalStates\(c\w+->components\[i\], c\w+->components\[i\]\)", "comp_equalStates(i)", 0),
     (r"std::numeric_limits<double>::epsilon\(\)", "DBL_EPSILON", 0),
 ]
 LOOP_G = lambda extra_assigns, inv: """
@@ -105,7 +106,7 @@ def compound_sources():
 
 DFLAGS = PFLAGS + ["--no-malloc-may-fail", "--object-bits", "12"]
 COMP_STUBS = ["comp_enforceBounds", "comp_satisfiesBounds", "samp_sampleUniform", "samp_sampleUniformNear", "samp_sampleGaussian", "weightImportance", "FMULW",
-              "comp_interpolate", "comp_weighted_distance"]
+              "comp_interpolate", "comp_weighted_distance", "comp_equalStates"]
 
 
 def compound_unit(name, entry, enforce, functions, canaries=(), backend="minisat"):
